@@ -179,6 +179,10 @@ def rules(rep, facts):
     from .rules_c08 import r3_conversions
     r3_conversions(rep, facts)
     rep.relabel('C08/R3', 'C06/R9', 'containers built by conversion hold only printable children (an inline table prints values only, so a child left as a table or array of tables vanishes from the text): ')
+    from .rules_c08 import r2_inplace
+    r2_inplace(rep, facts)
+    rep.relabel('C08/R2', 'C06/R10', 'an element handed to Array::push / insert gets the canonical inline decoration, prefix and suffix (a suffix it brought along, e.g. a trailing '
+                'comment, would swallow the `,` / `]` written after it and the text would not be valid TOML): ')
     R8 = rep.rule('C06/R8', 'no order-breaking operation / unstable sort in the printers (the same structure always prints the same, valid header order)', floor=2)
     order_ops(rep, R8, facts)
 
